@@ -5,7 +5,9 @@ import (
 	"encoding/json"
 	"fmt"
 	"image"
+	"io"
 	"reflect"
+	"testing/iotest"
 
 	webp "github.com/deepteams/webp"
 	"github.com/deepteams/webp/internal/zzverif/fw"
@@ -80,6 +82,43 @@ type c17Replay struct {
 	Seed int64
 }
 
+// The public entry points take an io.Reader and the package has a shortcut for
+// readers that know their length: every prefix is delivered through each kind
+// of reader (the "environment answers" of a read: all at once with a known
+// length, unknown length, one byte per Read, data together with io.EOF, and
+// through image.Decode's format sniffing, which wraps the reader in bufio).
+var c17Readers = []string{"bytes.Reader", "no-Len", "one-byte", "data+EOF", "image.Decode"}
+
+type noLen struct{ r io.Reader }
+
+func (n noLen) Read(p []byte) (int, error) { return n.r.Read(p) }
+
+func c17Reader(kind string, data []byte) io.Reader {
+	switch kind {
+	case "no-Len":
+		return noLen{bytes.NewReader(data)}
+	case "one-byte":
+		return iotest.OneByteReader(bytes.NewReader(data))
+	case "data+EOF":
+		return iotest.DataErrReader(bytes.NewReader(data))
+	}
+	return bytes.NewReader(data)
+}
+
+func c17Decode(kind string, data []byte) (img image.Image, err error, panicked string) {
+	defer func() {
+		if r := recover(); r != nil {
+			panicked = fmt.Sprint(r)
+		}
+	}()
+	if kind == "image.Decode" {
+		img, _, err = image.Decode(noLen{bytes.NewReader(data)})
+		return
+	}
+	img, err = webp.Decode(c17Reader(kind, data))
+	return
+}
+
 type fullRef struct {
 	img  image.Image
 	cfg  image.Config
@@ -102,10 +141,19 @@ func c17Full(f namedFile) (*fullRef, string) {
 	return &fullRef{img, cfg, ft}, ""
 }
 
-// c17Cut checks one prefix; "" = held.
+// c17Cut checks one prefix through every reader kind; "" = held.
 func c17Cut(f namedFile, ref *fullRef, n int) string {
+	for _, kind := range c17Readers {
+		if d := c17CutWith(f, ref, n, kind); d != "" {
+			return d + " (reader: " + kind + ")"
+		}
+	}
+	return ""
+}
+
+func c17CutWith(f namedFile, ref *fullRef, n int, kind string) string {
 	pre := f.Data[:n:n]
-	img, err, p := decode(pre)
+	img, err, p := c17Decode(kind, pre)
 	if p != "" {
 		return "Decode panicked: " + first(p)
 	}
@@ -113,6 +161,8 @@ func c17Cut(f namedFile, ref *fullRef, n int) string {
 		if d := imageEqual(ref.img, img); d != "" {
 			return "Decode accepted the prefix but returned a different picture: " + d
 		}
+	} else if n == len(f.Data) {
+		return "Decode rejects the complete file: " + err.Error()
 	}
 	cfg, cerr, cp := func() (c image.Config, e error, p string) {
 		defer func() {
@@ -120,7 +170,11 @@ func c17Cut(f namedFile, ref *fullRef, n int) string {
 				p = fmt.Sprint(r)
 			}
 		}()
-		c, e = webp.DecodeConfig(bytes.NewReader(pre))
+		if kind == "image.Decode" {
+			c, _, e = image.DecodeConfig(noLen{bytes.NewReader(pre)})
+			return
+		}
+		c, e = webp.DecodeConfig(c17Reader(kind, pre))
 		return
 	}()
 	if cp != "" {
@@ -136,7 +190,7 @@ func c17Cut(f namedFile, ref *fullRef, n int) string {
 				p = fmt.Sprint(r)
 			}
 		}()
-		f, e = webp.GetFeatures(bytes.NewReader(pre))
+		f, e = webp.GetFeatures(c17Reader(kind, pre))
 		return
 	}()
 	if fp != "" {
@@ -151,7 +205,7 @@ func c17Cut(f namedFile, ref *fullRef, n int) string {
 func init() {
 	fw.Register(&fw.Check{
 		ID: "C17", Level: "fault_enumeration", Shards: shards16,
-		Rule:   "corpus of valid still files (lossy 1/2/4/8 partitions, lossless per transform class, lossy+alpha raw/VP8L x filters, extended with metadata before/after, unknown chunks, odd payloads, testdata) x EVERY proper prefix length 0..len-1; Decode = error or identical picture; DecodeConfig/GetFeatures = error or identical values; non-trivial = a (file, cut) pair with cut > 0",
+		Rule:   "corpus of valid still files (lossy 1/2/4/8 partitions, lossless per transform class, lossy+alpha raw/VP8L x filters, extended with metadata before/after, unknown chunks, odd payloads, testdata) x EVERY prefix length 0..len (the complete file included) x 5 kinds of io.Reader (known length, unknown length, one byte per Read, data together with io.EOF, image.Decode/DecodeConfig through the registered format); Decode = error or identical picture; DecodeConfig/GetFeatures = error or identical values; non-trivial = a (file, cut) pair with cut > 0",
 		Assume: []string{"worker count pinned to 1, pools never reuse", "corpus files are produced by this package's encoder and by the harness's RIFF writer"},
 		Run: func(e *fw.Env, r *fw.Result) {
 			pin()
@@ -165,7 +219,7 @@ func init() {
 					continue
 				}
 				total += len(f.Data)
-				for n := 0; n < len(f.Data); n++ {
+				for n := 0; n <= len(f.Data); n++ {
 					k++
 					if !e.Mine(k) {
 						continue
@@ -174,7 +228,7 @@ func init() {
 						r.Cap("deadline reached before all prefixes were tried")
 						return
 					}
-					r.Eval(1)
+					r.Eval(int64(len(c17Readers)))
 					if n > 0 {
 						r.Distinct(f.Name, n)
 					}
